@@ -160,4 +160,11 @@ theorem encodeReq_rejects_iff (v : Nat) (tracing : Bool) (stream now : Int) (g :
         exact hne he.symm
       · rw [if_neg hsz] at he; cases he
 
+theorem payload_contra (v : Nat) (pl : Payload) (hok : payloadOk v pl = true) (hne : (!pl.isEmpty) = true)
+    (hv : v < 4) : False := by
+  simp only [payloadOk, Bool.or_eq_true, Bool.and_eq_true, decide_eq_true_eq] at hok
+  rcases hok with he | ⟨⟨h4, _⟩, _⟩
+  · simp [he] at hne
+  · omega
+
 end C03
